@@ -92,7 +92,10 @@ pub fn rand_big(rng: &mut ChaCha8Rng, bits: u32) -> BigUint {
         1 => BigUint::one(),
         2 | 3 => pow2(bits) - 1u32,
         4 => pow2(bits - 1),
-        5 => rng.gen_biguint(rng.gen_range(1..=bits) as u64),
+        5 => {
+            let b = rng.gen_range(1..=bits) as u64;
+            rng.gen_biguint(b)
+        }
         _ => rng.gen_biguint(bits as u64),
     }
 }
@@ -289,7 +292,8 @@ impl G<'_> {
                 IrType::Bytes(n) => IrType::Bytes(n.min(40)),
                 t => t,
             };
-            return self.constant(rand_val(self.rng, &t));
+            let v = rand_val(self.rng, &t);
+            return self.constant(v);
         }
         Opnd::Var(self.var(k))
     }
@@ -472,7 +476,7 @@ impl G<'_> {
             }
             "publish" => {
                 let n = [1, 1, 1, 2, 2, 3, 4][self.rng.gen_range(0..7)];
-                let mut ops = vec![];
+                let mut ops: Vec<Opnd> = vec![];
                 for _ in 0..n {
                     if !ops.is_empty() && self.rng.gen_bool(0.15) {
                         // the same value again
@@ -488,7 +492,10 @@ impl G<'_> {
                             IrType::Bytes(n) => IrType::Bytes(n.min(40)),
                             t => t,
                         };
-                        self.constant(rand_val(self.rng, &t))
+                        {
+                            let v = rand_val(self.rng, &t);
+                            self.constant(v)
+                        }
                     } else {
                         Opnd::Var(self.var(k))
                     };
@@ -637,7 +644,7 @@ impl G<'_> {
             }
             "inner_product" => {
                 let mut k = arith_kind(self);
-                let n = self.rng.gen_range(1..=4);
+                let n = [1usize, 1, 2, 2, 3, 3, 4, 5, 6, 8][self.rng.gen_range(0..10)];
                 if k == K::Point {
                     if self.heavy <= 0 {
                         k = K::Native;
@@ -645,7 +652,7 @@ impl G<'_> {
                         self.heavy -= 1;
                     }
                 }
-                let n = if k == K::Point { n.min(3) } else if self.rng.gen_bool(0.15) { self.rng.gen_range(5..=8) / 2 * 2 / 2 + 2 } else { n };
+                let n = if k == K::Point { n.min(3) } else { n };
                 let (ka, kb) = if k == K::Point { (K::Scalar, K::Point) } else { (k, k) };
                 let mut a = vec![];
                 let mut b = vec![];
@@ -1280,19 +1287,9 @@ pub fn variant(kind: &'static str, prog: &Prog, wit: &Wit, rng: &mut ChaCha8Rng)
             if p[i].outputs.len() >= 2 && (earlier.is_empty() || rng.gen_bool(0.3)) {
                 let n = p[i].outputs[0].clone();
                 let last = p[i].outputs.len() - 1;
-                if let Some(v) = w.get(&n).cloned() {
-                    let _ = v;
-                }
                 p[i].outputs[last] = n;
             } else {
                 let n = earlier.choose(rng)?.clone();
-                let old = p[i].outputs[0].clone();
-                // keep the witness consistent for loads: the duplicate must be the only problem
-                if let Some(v) = w.get(&n).cloned() {
-                    if matches!(p[i].operation, Operation::Load(_)) {
-                        let _ = (v, &old);
-                    }
-                }
                 p[i].outputs[0] = n;
             }
         }
